@@ -126,6 +126,25 @@ def run(repo, chk):
         ok = hh is not None and any(k == expr and l == lab for k, l, g in col.effective(hh)[1])
         chk.ob("R10.4", f"collector.{h}:label-{lab}", ok, "ptera/transform.py", f"{h} labels its names with provenance {lab!r}")
 
+    # a parameter stays a parameter: the 'body' label never replaces a provenance recorded earlier (parameters are visited before the body)
+    over, soft = [], 0
+    for q_, f2 in sorted(repo.functions.items()):
+        if f2.cls != f"transform.{col.cls.name}":
+            continue
+        for n in walk_local(f2.node):
+            if isinstance(n, ast.Assign) and len(n.targets) == 1 and isinstance(n.targets[0], ast.Subscript) and norm(n.targets[0].value) == "self.provenance" \
+                    and isinstance(n.value, ast.Constant) and n.value.value == "body":
+                key_ = norm(n.targets[0].slice)
+                if not any(c_ in (f"{key_} not in self.provenance",) for c_ in conds(n, f2.node)):
+                    over.append(f"{q_}: {norm(n)}")
+                else:
+                    soft += 1
+            elif isinstance(n, ast.Call) and norm(n.func) == "self.provenance.setdefault" and len(n.args) == 2 and isinstance(n.args[1], ast.Constant) and n.args[1].value == "body":
+                soft += 1
+    chk.ob("R10.4", "collector:body-label-keeps-an-earlier-provenance", not over and soft >= 1, "ptera/transform.py",
+           "a name bound in the body is labelled 'body' only if nothing was recorded for it before: a parameter that the body rebinds (x = x + 1, for y in ...) stays 'argument', "
+           "as in Python's symbol table (is_parameter)" + (f" -- overwritten by {over}" if over else f" ({soft} non-overwriting labellings)"))
+
     # ---------------- R10.5
     from .shared import closure_reference_obligations
     closure_reference_obligations(repo, chk, "R10.5")
